@@ -158,14 +158,14 @@ def check(repo: Repo, rep: Report) -> None:
                    "(a value whose age equals the window must be retained)")
     init = repo.fn(R, "ReplaySubject.__init__")
     for fld, param in (("buffer_size", "buffer_size"), (WIN, "window")):
-        ass = [s for s in sites(init) if isinstance(s.node, (ast.Assign, ast.AnnAssign)) and
-               u(s.node.targets[0] if isinstance(s.node, ast.Assign) else s.node.target) == f"self.{fld}"]
+        from ..rules import conditional_defs
+        from ..astutil import compare_parts as _cp
         ok = False
-        for s in ass:
-            v = s.node.value
-            if isinstance(v, ast.IfExp) and isinstance(v.test, ast.Compare) and isinstance(v.test.ops[0], (ast.Is, ast.IsNot)) \
-                    and u(v.test.left) == param and u(v.test.comparators[0]) == "None":
-                ok = True
+        for s_, v_, facts in conditional_defs(init, lambda t_: u(t_) == f"self.{fld}"):
+            for e_, p_ in facts:
+                c_ = _cp(e_)
+                if c_ and c_[0] == param and c_[2] == "None" and c_[1] in ("is", "is not"):
+                    ok = True
         rep.ob("RP3-trim-bounds", init, f"self.{fld} defaulted by `{param} is None`", ok,
                f"`{param}` is defaulted by truthiness: buffer_size=0 / window=0 would mean 'unbounded'")
     SC.rule_dispose(rep, cls)
